@@ -146,135 +146,271 @@ theorem onFail_appendsA_nocut (cfg : Cfg) : ∀ (recs : List Rec) (ws : WS) (i f
       refine ⟨?_, rfl⟩
       by_cases hr : cfg.walRollback = true <;> simp [hr] <;> omega
 
-/-- the log after the first `3*i` fragments of the records, then cut back to the start of record `i` -/
+/-! ### the appended records as actions (with their error paths) -/
+
+/-- the three fragment writes of each record; on failure the start of that record is restored -/
+def wwActs (cfg : Cfg) : Nat → List Rec → List Action
+  | _, [] => []
+  | start, r :: rs =>
+    [.io (.ww (.len r)) (if cfg.walRollback then [Step.wt start] else []),
+     .io (.ww (.crc r)) (if cfg.walRollback then [Step.wt start] else []),
+     .io (.ww (.body r)) (if cfg.walRollback then [Step.wt start] else [])] ++ wwActs cfg (start + 3) rs
+
+theorem appendsA_eq_wwActs (cfg : Cfg) : ∀ (recs : List Rec) (ws : WS), ws.isOpen = true →
+    (cfg.tailTolerant && !ws.checked) = false → (appendsA cfg ws recs).1 = wwActs cfg ws.len recs
+  | [], _, _, _ => rfl
+  | r :: recs, ws, ho, hc => by
+    obtain ⟨ha, hw⟩ := appendA_nocut_eq cfg ws r ho hc
+    have ih := appendsA_eq_wwActs cfg recs (appendA cfg ws r).2 (by rw [hw]; exact ho) (by rw [hw]; exact hc)
+    show (appendA cfg ws r).1 ++ (appendsA cfg (appendA cfg ws r).2 recs).1 = _
+    rw [ih, ha, hw]
+    rfl
+
+/-- the tail cut of the first append through a handle, as actions -/
+def cutActs (cfg : Cfg) (ws : WS) : List Action :=
+  if (cfg.tailTolerant && !ws.checked) = true then
+    (if ws.valid < ws.len then [ioA (.wt ws.valid)] else []) ++ [memA .tailChecked]
+  else []
+
+/-- where the records start after the cut -/
+def startOf (cfg : Cfg) (ws : WS) : Nat :=
+  if (cfg.tailTolerant && !ws.checked) = true then min ws.len ws.valid else ws.len
+
+theorem appendsA_eq (cfg : Cfg) (r : Rec) (recs : List Rec) (ws : WS) (ho : ws.isOpen = true) :
+    (appendsA cfg ws (r :: recs)).1 = cutActs cfg ws ++ wwActs cfg (startOf cfg ws) (r :: recs) := by
+  by_cases hc : (cfg.tailTolerant && !ws.checked) = true
+  · have h1 : (appendA cfg ws r).2.isOpen = true := by simp [appendA, ho]
+    have h2 : (cfg.tailTolerant && !(appendA cfg ws r).2.checked) = false := by
+      have : (appendA cfg ws r).2.checked = true := by simp [appendA, ho, hc]
+      simp [this]
+    have hlen : (appendA cfg ws r).2.len = min ws.len ws.valid + 3 := by simp [appendA, ho, hc]
+    show (appendA cfg ws r).1 ++ (appendsA cfg (appendA cfg ws r).2 recs).1 = _
+    rw [appendsA_eq_wwActs cfg recs _ h1 h2, hlen]
+    simp only [cutActs, startOf, hc, if_true, wwActs]
+    by_cases hv : ws.valid < ws.len <;> simp [appendA, ho, hc, hv]
+  · have hc' : (cfg.tailTolerant && !ws.checked) = false := by simpa using hc
+    rw [appendsA_eq_wwActs cfg (r :: recs) ws ho hc']
+    simp [cutActs, startOf, hc']
+
+theorem ioSteps_wwActs (cfg : Cfg) : ∀ (start : Nat) (recs : List Rec),
+    ioSteps (wwActs cfg start recs) = (frames recs).map Step.ww ∧ failOf (wwActs cfg start recs) = none ∧
+    memUpds (wwActs cfg start recs) = []
+  | _, [] => ⟨rfl, rfl, rfl⟩
+  | start, r :: rs => by
+    obtain ⟨h1, h2, h3⟩ := ioSteps_wwActs cfg (start + 3) rs
+    simp [wwActs, ioSteps, failOf, memUpds, frames, h1, h2, h3]
+
+theorem onFail_wwActs (cfg : Cfg) : ∀ (recs : List Rec) (start i f : Nat), i < recs.length → f < 3 →
+    onFailAt (wwActs cfg start recs) (3 * i + f) = (if cfg.walRollback then [Step.wt (start + 3 * i)] else []) ∧
+    memBefore (wwActs cfg start recs) (3 * i + f) = []
+  | [], _, i, _, hi, _ => by simp at hi
+  | r :: recs, start, 0, f, _, hf => by
+    have : f = 0 ∨ f = 1 ∨ f = 2 := by omega
+    rcases this with rfl | rfl | rfl <;> simp [wwActs, onFailAt, memBefore]
+  | r :: recs, start, i + 1, f, hi, hf => by
+    obtain ⟨h1, h2⟩ := onFail_wwActs cfg recs (start + 3) i f (by simpa using hi) hf
+    have hidx : 3 * (i + 1) + f = (3 * i + f) + 3 := by omega
+    rw [hidx]
+    simp only [wwActs, List.cons_append, List.nil_append, onFailAt, memBefore]
+    rw [h1, h2]
+    refine ⟨?_, rfl⟩
+    by_cases hr : cfg.walRollback = true <;> simp [hr] <;> omega
+
+theorem ioSteps_cutActs (cfg : Cfg) (ws : WS) :
+    ioSteps (cutActs cfg ws) = cutSteps cfg ws ∧ failOf (cutActs cfg ws) = none ∧ memUpds (cutActs cfg ws) = cutUpds cfg ws := by
+  unfold cutActs cutSteps cutUpds
+  by_cases hc : (cfg.tailTolerant && !ws.checked) = true <;> by_cases hv : ws.valid < ws.len <;>
+    simp [hc, hv, ioSteps, failOf, memUpds]
+
 theorem take_take_frames (wf : List Frag) (l : List Frag) (k i : Nat) (hik : 3 * i ≤ k) :
     (wf ++ l.take k).take (wf.length + 3 * i) = wf ++ l.take (3 * i) := by
   rw [List.take_append, List.take_of_length_le (by omega), List.take_take]
   congr 2
   omega
 
-/-- no tail cut is pending on this handle (always the case unless C17's repair is in the tree and
-    this is the first append through the handle) -/
-def NoCut (cfg : Cfg) (m : Mem) : Prop := (cfg.tailTolerant && !m.tailChecked) = false
+theorem frames_take (recs : List Rec) (i : Nat) : frames (recs.take i) = (frames recs).take (3 * i) := by
+  induction recs generalizing i with
+  | nil => simp [frames]
+  | cons r rs ih =>
+    cases i with
+    | zero => simp [frames]
+    | succ i =>
+      have : 3 * (i + 1) = 3 * i + 3 := by omega
+      simp [frames, ih, this]
 
-/-- **a commit that fails in its log phase**: the error is reported, memory is untouched except for
-    the transaction counter, and the files are back to a log whose every crash image represents
-    `T` — nothing of the transaction can surface later. -/
+/-- **a commit that fails in its log phase** (any of the three writes of any record, the log sync,
+    or the tail cut of the first append): the error is reported; memory is untouched except for the
+    transaction counter and the tail flag; the log is back to what it was plus, at most, unsynced
+    complete records of the unfinished transaction — files and handle again satisfy the invariant
+    for the OLD list `T`, with a log without torn tail. -/
 theorem failed_commit_wal {cfg : Cfg} {T : List Tx} {fs : FS} {m : Mem} {cs : List CTx} {c : Nat}
-    (hroll : cfg.walRollback = true) (h : InvOpen T fs m cs c) (hnc : NoCut cfg m)
-    (hclean : validLen fs.wf = fs.wf.length) (tx : Tx) (hf : FreshTx T tx) (k : Nat)
-    (hk : k ≤ 3 * (txRecs m.nextTxid m.idLen tx).length) :
+    (hroll : cfg.walRollback = true) (h : InvOpen T fs m cs c) (ht : TailPre cfg fs m) (tx : Tx) (hf : FreshTx T tx)
+    (k : Nat) (hk : k ≤ (cutSteps cfg (m.ws fs.wf)).length + 3 * (txRecs m.nextTxid m.idLen tx).length) :
     let out := run (commitA cfg m fs.pv fs.wf tx) (.faultAt k) fs m
-    out.err = some .io ∧ out.mem = { m with nextTxid := m.nextTxid + 1 } ∧ SafeFS [T] out.fs ∧
-    ((k < 3 ∨ k = 3 * (txRecs m.nextTxid m.idLen tx).length) →
-      InvOpen T out.fs out.mem cs c ∧ validLen out.fs.wf = out.fs.wf.length) := by
+    out.err = some .io ∧ InvOpen T out.fs out.mem cs c ∧ TailPre cfg out.fs out.mem := by
   intro out
-  obtain ⟨hS, hfailNone⟩ := commitA_steps cfg m fs.pv fs.wf tx h.mwal
+  obtain ⟨hS, _⟩ := commitA_steps cfg m fs.pv fs.wf tx h.mwal
   have hws : (m.ws fs.wf).isOpen = true := h.mwal
-  have hcutf : (cfg.tailTolerant && !(m.ws fs.wf).checked) = false := hnc
-  have hcs : cutSteps cfg (m.ws fs.wf) = [] := by simp [cutSteps, hcutf]
-  rw [hcs, List.nil_append] at hS
   generalize hrecs : txRecs m.nextTxid m.idLen tx = recs at hS hk
   have hR : recs.length = (body m.idLen tx).length + 2 := by rw [← hrecs, txRecs_eq]; simp
-  obtain ⟨i1, i2, i3, i4⟩ := appendsA_nocut cfg recs (m.ws fs.wf) hws hcutf
+  have hrc : recs = .begin m.nextTxid :: (body m.idLen tx ++ [.commit m.nextTxid]) := by rw [← hrecs, txRecs_eq]; rfl
+  obtain ⟨c1, c2, c3⟩ := ioSteps_cutActs cfg (m.ws fs.wf)
+  obtain ⟨w1, w2, w3⟩ := ioSteps_wwActs cfg (startOf cfg (m.ws fs.wf)) recs
   have hlenS : k < (ioSteps (commitA cfg m fs.pv fs.wf tx)).length := by
     rw [hS]; simp [frames_length]; omega
   obtain ⟨e1, e2, e3⟩ := run_fault (commitA cfg m fs.pv fs.wf tx) k fs m hlenS
-  -- the action list, split at the log sync
-  have hacts : ∃ tl : List Action, onFailAt tl 0 = [Step.wt fs.wf.length] ∧ memBefore tl 0 = [] ∧
-      commitA cfg m fs.pv fs.wf tx = memA .bumpTxid :: ((appendsA cfg (m.ws fs.wf) recs).1 ++ tl) := by
-    refine ⟨[Action.io .ws [Step.wt fs.wf.length]] ++
+  -- the action list
+  have hacts : ∃ tl : List Action, onFailAt tl 0 = [Step.wt (startOf cfg (m.ws fs.wf))] ∧ memBefore tl 0 = [] ∧
+      commitA cfg m fs.pv fs.wf tx =
+        memA .bumpTxid :: (cutActs cfg (m.ws fs.wf) ++ (wwActs cfg (startOf cfg (m.ws fs.wf)) recs ++ tl)) := by
+    refine ⟨[Action.io .ws [Step.wt (startOf cfg (m.ws fs.wf))]] ++
           ((nodesA cfg (m.ps fs.pv) { start := m.idStart, len := m.idLen } tx.nodes).1 ++
             ((if tx.edges.isEmpty && tx.props.isEmpty then []
               else [memA (.pushRun { txid := m.nextTxid, edges := tx.edges, props := tx.props })]) ++ [memA .bumpTxid])), rfl, rfl, ?_⟩
     unfold commitA
-    simp only [hrecs, i4, if_true, hroll, hcutf, List.append_assoc]
+    have hap := appendsA_eq cfg (.begin m.nextTxid) (body m.idLen tx ++ [.commit m.nextTxid]) (m.ws fs.wf) hws
+    rw [← hrc] at hap
+    have hop : (appendsA cfg (m.ws fs.wf) recs).2.isOpen = true := by
+      rw [hrc]; exact (appendsA_steps cfg _ _ (m.ws fs.wf) hws).2.2.2
+    simp only [hrecs, hap, hop, if_true, hroll, List.append_assoc]
+    have hst : (if (cfg.tailTolerant && !(m.ws fs.wf).checked) = true then min (m.ws fs.wf).len (m.ws fs.wf).valid
+        else (m.ws fs.wf).len) = startOf cfg (m.ws fs.wf) := rfl
+    rw [hst]
     rfl
   obtain ⟨tl, htl0, htlm, hacts⟩ := hacts
-  have hioAw : (ioSteps (appendsA cfg (m.ws fs.wf) recs).1).length = 3 * recs.length := by
-    rw [i1, List.length_map, frames_length]
-  -- error path and memory at the fault
-  have hof : (k < 3 * recs.length ∧ onFailAt (commitA cfg m fs.pv fs.wf tx) k = [Step.wt (fs.wf.length + 3 * (k / 3))]) ∨
-      (k = 3 * recs.length ∧ onFailAt (commitA cfg m fs.pv fs.wf tx) k = [Step.wt fs.wf.length]) := by
-    rw [hacts]
-    show (_ ∧ onFailAt ((appendsA cfg (m.ws fs.wf) recs).1 ++ tl) k = _) ∨ (_ ∧ onFailAt ((appendsA cfg (m.ws fs.wf) recs).1 ++ tl) k = _)
-    by_cases hlt : k < 3 * recs.length
-    · left
-      refine ⟨hlt, ?_⟩
-      rw [onFailAt_append_left _ _ _ (by rw [hioAw]; exact hlt)]
-      have := (onFail_appendsA_nocut cfg recs (m.ws fs.wf) (k / 3) (k % 3) hws hcutf (by omega) (by omega)).1
-      rw [show 3 * (k / 3) + k % 3 = k by omega] at this
-      rw [this, hroll]
-      rfl
+  -- memory at the fault: the counter, and the tail flag if the cut was performed
+  have hInvMem : ∀ (mm : Mem), (mm = { m with nextTxid := m.nextTxid + 1 } ∨
+      mm = { m with nextTxid := m.nextTxid + 1, tailChecked := true }) →
+      ∀ (g : FS), Inert g.pj → g.pd = fs.pd → WalStable cs g → InvOpen T g mm cs c := by
+    intro mm hmm g hgj hgd hgw
+    have hfields : mm.pm = m.pm ∧ mm.idLen = m.idLen ∧ mm.idStart = m.idStart ∧ mm.exts = m.exts ∧ mm.runs = m.runs ∧
+        mm.segs = m.segs ∧ mm.proot = m.proot ∧ mm.ptop = m.ptop ∧ mm.epoch = m.epoch ∧ mm.nextTxid = m.nextTxid + 1 ∧
+        mm.walOpen = m.walOpen := by
+      rcases hmm with rfl | rfl <;> exact ⟨rfl, rfl, rfl, rfl, rfl, rfl, rfl, rfl, rfl, rfl, rfl⟩
+    obtain ⟨f1, f2, f3, f4, f5, f6, f7, f8, f9, f10, f11⟩ := hfields
+    exact { pj := hgj, wal := hgw, log := h.log, pager := by rw [hgd]; exact h.pager, store := by rw [hgd]; exact h.store,
+            full := by rw [hgd]; exact h.full, mpm := by rw [f1, hgd]; exact h.mpm, mlen := by rw [f2]; exact h.mlen,
+            mstart := by rw [f3, hgd]; exact h.mstart, mexts := by rw [f4]; exact h.mexts, mruns := by rw [f5]; exact h.mruns,
+            msegs := by rw [f6, hgd]; exact h.msegs, mroot := by rw [f7]; exact h.mroot, mptop := by rw [f8]; exact h.mptop,
+            mepoch := by rw [f9]; exact h.mepoch, mtxid := by rw [f10]; have := h.mtxid; omega,
+            mwal := by rw [f11]; exact h.mwal }
+  by_cases hkc : k < (cutSteps cfg (m.ws fs.wf)).length
+  · -- the tail cut itself fails: nothing happened
+    have hcut1 : cutSteps cfg (m.ws fs.wf) = [Step.wt (m.ws fs.wf).valid] ∧ (cfg.tailTolerant && !(m.ws fs.wf).checked) = true ∧
+        (m.ws fs.wf).valid < (m.ws fs.wf).len := by
+      unfold cutSteps at hkc ⊢
+      by_cases hc : (cfg.tailTolerant && !(m.ws fs.wf).checked) = true ∧ (m.ws fs.wf).valid < (m.ws fs.wf).len
+      · rw [if_pos hc]; exact ⟨rfl, hc.1, hc.2⟩
+      · rw [if_neg hc] at hkc; simp at hkc
+    obtain ⟨hcs, hflag, hv⟩ := hcut1
+    have hk0 : k = 0 := by rw [hcs] at hkc; simpa using hkc
+    subst hk0
+    have hca : cutActs cfg (m.ws fs.wf) = [ioA (.wt (m.ws fs.wf).valid), memA .tailChecked] := by
+      simp [cutActs, hflag, hv]
+    have hof : onFailAt (commitA cfg m fs.pv fs.wf tx) 0 = [] := by rw [hacts, hca]; rfl
+    have hmb : memBefore (commitA cfg m fs.pv fs.wf tx) 0 = [MemUpd.bumpTxid] := by rw [hacts, hca]; rfl
+    have hfs : out.fs = fs := by show (run _ _ _ _).fs = _; rw [e2, hof]; simp [FS.steps]
+    have hmem : out.mem = { m with nextTxid := m.nextTxid + 1 } := by show (run _ _ _ _).mem = _; rw [e3, hmb]; rfl
+    refine ⟨e1, ?_, ?_⟩
+    · rw [hfs]; exact hInvMem _ (Or.inl hmem) fs h.pj rfl h.wal
     · right
-      have hke : k = 3 * recs.length := by omega
-      refine ⟨hke, ?_⟩
-      have := onFailAt_append_right (appendsA cfg (m.ws fs.wf) recs).1 tl 0 i2
-      rw [hioAw, Nat.add_zero] at this
-      rw [hke, this, htl0]
-  have hmb : memBefore (commitA cfg m fs.pv fs.wf tx) k = [MemUpd.bumpTxid] := by
-    rw [hacts]
-    show MemUpd.bumpTxid :: memBefore ((appendsA cfg (m.ws fs.wf) recs).1 ++ tl) k = _
-    by_cases hlt : k < 3 * recs.length
-    · rw [memBefore_append_left _ _ _ (by rw [hioAw]; exact hlt)]
-      have := (onFail_appendsA_nocut cfg recs (m.ws fs.wf) (k / 3) (k % 3) hws hcutf (by omega) (by omega)).2
-      rw [show 3 * (k / 3) + k % 3 = k by omega] at this
-      rw [this]
-    · have hke : k = 3 * recs.length := by omega
-      have := memBefore_append_right (appendsA cfg (m.ws fs.wf) recs).1 tl 0 i2
-      rw [hioAw, Nat.add_zero] at this
-      rw [hke, this, i3]
-      rw [htlm]; rfl
-  -- the files after the fault: the log is cut back to the start of record k/3 (or of the transaction)
-  have htake : (ioSteps (commitA cfg m fs.pv fs.wf tx)).take k = ((frames recs).map Step.ww).take k := by
-    rw [hS, List.take_append_of_le_length (by rw [List.length_map, frames_length]; exact hk)]
-  obtain ⟨j, hj, hfsw⟩ : ∃ j, 3 * j ≤ k ∧ (j < recs.length ∧ (k < 3 ∨ k = 3 * recs.length → j = 0)) ∧
-      out.fs = (fs.steps (((frames recs).map Step.ww).take k)).step (.wt (fs.wf.length + 3 * j)) := by
-    rcases hof with ⟨hlt, hof⟩ | ⟨hke, hof⟩
-    · exact ⟨k / 3, by omega, ⟨by omega, by intro hq; omega⟩, by show (run _ _ _ _).fs = _; rw [e2, htake, hof]; rfl⟩
-    · exact ⟨0, by omega, ⟨by omega, fun _ => rfl⟩, by show (run _ _ _ _).fs = _; rw [e2, htake, hof]; rfl⟩
-  obtain ⟨⟨hjR, hj0⟩, hfsw⟩ := hfsw
-  rw [← List.map_take] at hfsw
-  obtain ⟨hw, hd, hr, hpd, hpj⟩ := steps_ww fs ((frames recs).take k)
-  have hwf' : out.fs.wf = fs.wf ++ (frames recs).take (3 * j) := by
-    rw [hfsw]; simp only [FS.step, hw]; exact take_take_frames fs.wf (frames recs) k j hj
-  have hwd' : out.fs.wdur = fs.wf.length := by
-    rw [hfsw]; simp only [FS.step, hd, h.quiet.wdur]; omega
-  have hren' : out.fs.ren = none := by rw [hfsw]; simp only [FS.step]; rw [hr]; exact h.quiet.ren
-  have hpj' : out.fs.pj = [] := by rw [hfsw]; simp only [FS.step]; rw [hpj]; exact h.pj
-  have hpd' : out.fs.pd = fs.pd := by rw [hfsw]; simp only [FS.step]; exact hpd
-  have hmem : out.mem = { m with nextTxid := m.nextTxid + 1 } := by
-    show (run _ _ _ _).mem = _
-    rw [e3, hmb]; rfl
-  have hrlp := fun jj => rep_log_prefix hclean h.com h.log h.pager m.nextTxid tx h.mtxid hf jj
-  rw [← h.mlen, hrecs] at hrlp
-  refine ⟨e1, hmem, ?_, ?_⟩
-  · intro mode
-    refine ⟨T, by simp, ?_⟩
-    have hP : out.fs.crashP mode = fs.pd := by
-      have := crashP_isImg out.fs mode
-      rw [hpj', hpd'] at this
-      exact isImg_nil _ _ this
-    rw [hP]
-    cases mode with
-    | proc =>
-      show Rep T fs.pd out.fs.wf
+      rw [hmem]
+      exact hflag
+  · -- the cut (if any) was performed; the fault is in the records or in the sync
+    obtain ⟨_, hpj0, hpd0, hst0, hclean0⟩ := cut_state h ht
+    generalize hfs0 : fs.steps (cutSteps cfg (m.ws fs.wf)) = fs0 at hpj0 hpd0 hst0 hclean0
+    have hlen0 : fs0.wf.length = startOf cfg (m.ws fs.wf) := by
+      rw [← hfs0]
+      unfold cutSteps startOf
+      have hvl := validLen_le fs.wf
+      by_cases hc : (cfg.tailTolerant && !(m.ws fs.wf).checked) = true
+      · by_cases hv : (m.ws fs.wf).valid < (m.ws fs.wf).len
+        · have hv' : validLen fs.wf < fs.wf.length := hv
+          simp only [hc, hv, and_self, if_true, FS.steps, List.foldl, FS.step, List.length_take]
+          show min (validLen fs.wf) fs.wf.length = min fs.wf.length (validLen fs.wf)
+          omega
+        · have hv' : ¬ validLen fs.wf < fs.wf.length := hv
+          simp only [hc, hv, and_false, if_false, if_true, FS.steps, List.foldl]
+          show fs.wf.length = min fs.wf.length (validLen fs.wf)
+          omega
+      · simp only [hc, false_and, if_false, FS.steps, List.foldl]
+        rfl
+    obtain ⟨k', hk'⟩ : ∃ k', k = (cutSteps cfg (m.ws fs.wf)).length + k' := ⟨k - (cutSteps cfg (m.ws fs.wf)).length, by omega⟩
+    have hk'le : k' ≤ 3 * recs.length := by omega
+    have hioc : (ioSteps (cutActs cfg (m.ws fs.wf))).length = (cutSteps cfg (m.ws fs.wf)).length := by rw [c1]
+    have hioW : (ioSteps (wwActs cfg (startOf cfg (m.ws fs.wf)) recs)).length = 3 * recs.length := by
+      rw [w1, List.length_map, frames_length]
+    have hof : ∃ j, j ≤ k' / 3 ∧ j < recs.length ∧ onFailAt (commitA cfg m fs.pv fs.wf tx) k = [Step.wt (fs0.wf.length + 3 * j)] := by
+      rw [hacts, hk']
+      show ∃ j, _ ∧ _ ∧ onFailAt (cutActs cfg (m.ws fs.wf) ++ _) _ = _
+      rw [← hioc, onFailAt_append_right _ _ _ c2]
+      by_cases hlt : k' < 3 * recs.length
+      · refine ⟨k' / 3, Nat.le_refl _, by omega, ?_⟩
+        rw [onFailAt_append_left _ _ _ (by rw [hioW]; exact hlt)]
+        have := (onFail_wwActs cfg recs (startOf cfg (m.ws fs.wf)) (k' / 3) (k' % 3) (by omega) (by omega)).1
+        rw [show 3 * (k' / 3) + k' % 3 = k' by omega] at this
+        rw [this, hroll, hlen0]; rfl
+      · refine ⟨0, Nat.zero_le _, by omega, ?_⟩
+        have hke : k' = 3 * recs.length := by omega
+        have := onFailAt_append_right (wwActs cfg (startOf cfg (m.ws fs.wf)) recs) tl 0 w2
+        rw [hioW, Nat.add_zero] at this
+        rw [hke, this, htl0, hlen0]; simp
+    have hmb : memBefore (commitA cfg m fs.pv fs.wf tx) k = MemUpd.bumpTxid :: cutUpds cfg (m.ws fs.wf) := by
+      rw [hacts, hk']
+      show MemUpd.bumpTxid :: memBefore (cutActs cfg (m.ws fs.wf) ++ _) _ = _
+      rw [← hioc, memBefore_append_right _ _ _ c2, c3]
+      congr 1
+      by_cases hlt : k' < 3 * recs.length
+      · rw [memBefore_append_left _ _ _ (by rw [hioW]; exact hlt)]
+        have := (onFail_wwActs cfg recs (startOf cfg (m.ws fs.wf)) (k' / 3) (k' % 3) (by omega) (by omega)).2
+        rw [show 3 * (k' / 3) + k' % 3 = k' by omega] at this
+        rw [this]; simp
+      · have hke : k' = 3 * recs.length := by omega
+        have := memBefore_append_right (wwActs cfg (startOf cfg (m.ws fs.wf)) recs) tl 0 w2
+        rw [hioW, Nat.add_zero] at this
+        rw [hke, this, w3, htlm]; simp
+    obtain ⟨j, hjk, hjR, hof⟩ := hof
+    have htake : (ioSteps (commitA cfg m fs.pv fs.wf tx)).take k =
+        cutSteps cfg (m.ws fs.wf) ++ ((frames recs).map Step.ww).take k' := by
+      rw [hS, hk', List.take_append, List.take_of_length_le (by omega), Nat.add_sub_cancel_left,
+        List.take_append_of_le_length (by rw [List.length_map, frames_length]; exact hk'le)]
+    have hfsw : out.fs = (fs0.steps (((frames recs).take k').map Step.ww)).step (.wt (fs0.wf.length + 3 * j)) := by
+      show (run _ _ _ _).fs = _
+      rw [e2, htake, steps_append, hfs0, hof, List.map_take]
+      rfl
+    obtain ⟨hw, hd, hr, hpd, hpj⟩ := steps_ww fs0 ((frames recs).take k')
+    have hwf' : out.fs.wf = fs0.wf ++ (frames recs).take (3 * j) := by
+      rw [hfsw]; simp only [FS.step, hw]; exact take_take_frames fs0.wf (frames recs) k' j (by omega)
+    have hwd' : out.fs.wdur = fs0.wdur := by
+      rw [hfsw]; simp only [FS.step, hd]; have := hst0.wdur; omega
+    have hren' : out.fs.ren = none := by rw [hfsw]; simp only [FS.step]; rw [hr]; exact hst0.ren
+    have hpj' : out.fs.pj = fs.pj := by rw [hfsw]; simp only [FS.step]; rw [hpj]; exact hpj0
+    have hpd' : out.fs.pd = fs.pd := by rw [hfsw]; simp only [FS.step]; rw [hpd]; exact hpd0
+    have hmem : out.mem = { m with nextTxid := m.nextTxid + 1 } ∨
+        out.mem = { m with nextTxid := m.nextTxid + 1, tailChecked := true } := by
+      have : out.mem = (MemUpd.bumpTxid :: cutUpds cfg (m.ws fs.wf)).foldl applyUpd m := by
+        show (run _ _ _ _).mem = _; rw [e3, hmb]
+      rcases cutUpds_cases cfg (m.ws fs.wf) with hcu | hcu
+      · left; rw [this, hcu]; rfl
+      · right; rw [this, hcu]; rfl
+    have hcom0 := hst0.com
+    have hwf0 : fs0.wf = frames (readAll fs0.wf) := clean_eq_frames _ hclean0
+    have hstab : WalStable cs out.fs := by
+      refine ⟨hren', by rw [hwd', hwf']; have := hst0.wdur; simp; omega, ?_⟩
+      intro n hn
+      rw [hwd'] at hn
       rw [hwf']
-      exact (hrlp (3 * j)).1 (by omega)
-    | power sel wk lose =>
-      simp only [FS.crashW, hren', hwf', hwd']
-      rw [List.take_append, List.take_of_length_le (by omega), List.take_take]
-      exact (hrlp (min (fs.wf.length + wk - fs.wf.length) (3 * j))).1 (by omega)
-  · intro hq
-    have hwfEq : out.fs.wf = fs.wf := by
-      rw [hwf', hj0 hq]; simp
-    refine ⟨{ pj := hpj', quiet := ⟨by rw [hwd', hwfEq], hren'⟩, com := by rw [hwfEq]; exact h.com, log := h.log,
-              pager := by rw [hpd']; exact h.pager, full := by rw [hpd']; exact h.full,
-              mpm := by rw [hmem, hpd']; exact h.mpm, mlen := by rw [hmem]; exact h.mlen,
-              mstart := by rw [hmem, hpd']; exact h.mstart, mexts := by rw [hmem]; exact h.mexts,
-              mruns := by rw [hmem]; exact h.mruns, msegs := by rw [hmem]; exact h.msegs,
-              mroot := by rw [hmem]; exact h.mroot,
-              mtxid := by rw [hmem]; show _ < m.nextTxid + 1; have := h.mtxid; omega,
-              mwal := by rw [hmem]; exact h.mwal }, by rw [hwfEq]; exact hclean⟩
+      by_cases hle : n ≤ fs0.wf.length
+      · rw [List.take_append_of_le_length hle]; exact hst0.stable n hn
+      · rw [List.take_append, List.take_of_length_le (by omega), List.take_take, hwf0, readAll_append_take]
+        have hidx : min (n - (frames (readAll fs0.wf)).length) (3 * j) / 3 ≤ (body m.idLen tx).length + 1 := by omega
+        rw [← hrecs]
+        exact committed_partial hcom0 m.nextTxid m.idLen tx _ hidx
+    have hclean' : validLen out.fs.wf = out.fs.wf.length := by
+      rw [hwf', ← frames_take, hwf0, ← frames_append]
+      have := validLen_frames_append (readAll fs0.wf ++ recs.take j) []
+      simp [validLen] at this
+      rw [this, frames_length, List.length_append, List.length_take]
+    exact ⟨e1, hInvMem _ hmem out.fs (by rw [hpj']; exact h.pj) hpd' hstab, Or.inl hclean'⟩
 
 end Nervus.Crash
